@@ -1,7 +1,7 @@
 (* C18 - a launcher request only matches hosts that satisfy it.
    Statements only; every proof is `exact <lemma>`.                       *)
 From Coq Require Import ZArith List Permutation.
-From XV Require Import model.Launcher proofs.Launcher_lemmas.
+From XV Require Import model.Launcher model.LauncherParse proofs.Launcher_lemmas proofs.LauncherParse_lemmas.
 Import ListNotations.
 Open Scope Z_scope.
 
@@ -57,6 +57,63 @@ Theorem C18_registry_grouping : forall args args' hs,
 Proof. exact registry_grouping. Qed.
 Print Assumptions C18_registry_grouping.
 
+(* ---- a request given as text (character-level grammar of parser.py, model/LauncherParse.v) ---- *)
+(* every well-formed expression (numbers not negative, brackets and alternatives not empty, cuda(..) holds mem=
+   items, cpu(..) mem= and cores= items), written canonically, is read back as that very expression *)
+Theorem C18_print_parse : forall e, wf_expr e -> parse_req (pr_expr e) = Some e.
+Proof. exact print_parse. Qed.
+Print Assumptions C18_print_parse.
+
+(* the objects cpu(..) / cuda_gpu(..) * n / duration(..) combined with & (copies made as specs.py makes them, store
+   with aliasing) have the value the visitor computes for the alternative *)
+Theorem C18_prog_value_sem : forall ts, ts <> [] -> prog_value ts = sem_spec ts.
+Proof. exact prog_value_sem. Qed.
+Print Assumptions C18_prog_value_sem.
+
+(* the clause "a request given as text means the same as the one built programmatically":
+   for the canonical text of every expression ... *)
+Theorem C18_text_programmatic : forall e, wf_expr e -> text_reqs (pr_expr e) = Some (map prog_value e).
+Proof. exact text_programmatic. Qed.
+Print Assumptions C18_text_programmatic.
+
+(* ... and for EVERY text the grammar accepts, whatever its spacing: it means what the objects it names mean *)
+Theorem C18_text_means_programmatic : forall t e,
+  parse_req t = Some e -> text_reqs t = Some (map prog_value e).
+Proof. exact text_means_programmatic. Qed.
+Print Assumptions C18_text_means_programmatic.
+
+(* so the text and the object get the same answer from every host and from every site *)
+Theorem C18_text_same_answers : forall e, wf_expr e ->
+  exists rs, text_reqs (pr_expr e) = Some rs /\ rs = map prog_value e /\
+    (forall h, union_match rs h = union_match (map prog_value e) h) /\
+    (forall hs, registry_find [(false, rs)] hs = registry_find [(false, map prog_value e)] hs).
+Proof. exact text_same_answers. Qed.
+Print Assumptions C18_text_same_answers.
+
+(* C18_union_sound and C18_registry_first read for a textual request *)
+Theorem C18_text_match : forall t rs h k s, text_reqs t = Some rs -> union_match rs h = Some (k, s) ->
+  exists r, nth_error rs k = Some r /\ satisfies r h /\
+    (forall j' r', (j' < k)%nat -> nth_error rs j' = Some r' -> match_simple r' h = None).
+Proof. exact text_match. Qed.
+Print Assumptions C18_text_match.
+
+Theorem C18_text_registry : forall t rs hs i j, text_reqs t = Some rs ->
+  registry_find [(false, rs)] hs = Some (i, j) ->
+  exists r h, nth_error rs i = Some r /\ nth_error hs j = Some h /\ satisfies r h /\
+    (forall i' r' h', (i' < i)%nat -> nth_error rs i' = Some r' -> In h' hs -> ~ satisfies r' h') /\
+    (forall j' h', (j' < j)%nat -> nth_error hs j' = Some h' -> ~ satisfies r h').
+Proof. exact text_registry. Qed.
+Print Assumptions C18_text_registry.
+
+(* observations: empty brackets are rejected, by the grammar before fixes/C18-2 and after it
+   (cuda(), cpu(), cuda() * 2 -- the last one was a TypeError of the visitor) *)
+Theorem C18_empty_brackets_rejected :
+  parse_req t_cuda_empty = None /\ parse_req t_cpu_empty = None /\ parse_req t_cuda_empty_mult = None /\
+  parse_req_prefix t_cuda_empty = None /\ parse_req_prefix t_cpu_empty = None /\
+  parse_req_prefix t_cuda_empty_mult = None.
+Proof. exact empty_brackets_rejected. Qed.
+Print Assumptions C18_empty_brackets_rejected.
+
 (* & and * never alter their operands, and compute the documented combination *)
 Theorem C18_and_pure : forall st a b st' n,
   valid st a -> valid st b -> and_op st a b = (st', n) ->
@@ -107,3 +164,10 @@ Theorem C18_match_positional_refuted : exists r h h',
   match_simple r h = None /\ match_simple r h' <> None.
 Proof. exact match_positional_refuted. Qed.
 Print Assumptions C18_match_positional_refuted.
+
+(* the grammar before fixes/C18-2 (ZeroOrMore in the brackets): `cuda() cpu(cores=2)` -- operator forgotten -- was
+   accepted and meant cpu(cores=2) alone: a term with empty brackets vanished *)
+Theorem C18_empty_brackets_dropped_refuted :
+  parse_req_prefix t_dropped = Some [[TCpu [ICores 2]]] /\ parse_req t_dropped = None.
+Proof. exact empty_brackets_dropped_refuted. Qed.
+Print Assumptions C18_empty_brackets_dropped_refuted.
